@@ -11,6 +11,7 @@ Stores the result under /verif/seeded/<PROP>-<N>/ (patch.diff, demo/, report.md,
 (The registered checks themselves always run in /verif against /repo; this tool is only for self-validation.)"""
 import json, os, shutil, subprocess, sys, time
 V = os.path.dirname(os.path.dirname(os.path.abspath(__file__)))
+SRC = "/tmp/verif-snap" if os.path.isdir("/tmp/verif-snap") and "--snap" in sys.argv else V  # --snap: a clean snapshot of the committed tree; default: /verif as it is on disk now
 ENV = dict(os.environ, GOFLAGS="-mod=mod", GOPROXY="off", GOSUMDB="off", GOTOOLCHAIN="local")
 
 
@@ -82,7 +83,7 @@ def main():
     vc = f"/tmp/veval-{prop}-{n}"
     shutil.rmtree(vc, ignore_errors=True)
     sh(["rsync", "-a", "--exclude", ".git", "--exclude", "replays", "--exclude", "seeded", "--exclude", "design-spikes",
-        "--exclude", ".work/gocache", V + "/", vc + "/"])
+        "--exclude", ".work/gocache", SRC + "/", vc + "/"])
     gm = os.path.join(vc, "harness", "go.mod")
     s = open(gm).read().replace("=> /repo", f"=> {wt}")
     open(gm, "w").write(s)
